@@ -274,10 +274,10 @@ class FormWorld:
         k = self.prog.get_class("ufl.finiteelement.AbstractFiniteElement")
         e = Obj("element", reference_value_shape=tuple(ref_shape if ref_shape is not None else shape), cell=cell, embedded_superdegree=degree, embedded_subdegree=degree, num_sub_elements=0, sub_elements=[])
         e.attrs["__class__"] = k
-        e.attrs["__repr__"] = f"Element({name})"
+        e.attrs["__repr__"] = f"Element({name!r})"
         e.attrs["__str__"] = f"<{name}>"
-        e.attrs["__hash__"] = lambda: self.py_hash(f"Element({name})")
-        e.attrs["__eq__"] = lambda other: isinstance(other, Obj) and other.attrs.get("__repr__") == f"Element({name})"
+        e.attrs["__hash__"] = lambda: self.py_hash(f"Element({name!r})")
+        e.attrs["__eq__"] = lambda other: isinstance(other, Obj) and other.attrs.get("__repr__") == f"Element({name!r})"
         pb = Obj("pullback", physical_value_shape=lambda el, dom: tuple(shape))
         pb.attrs["__class__"] = None
         e.attrs["pullback"] = pb
